@@ -125,6 +125,9 @@ def record(src):
     ra = H.rec_from_net((src['a'][0], [(t, o) for t, o in src['a'][1]]), src['oa'], labels=la)
     rb = H.rec_from_net((src['b'][0], [(t, o) for t, o in src['b'][1]]), src['ob'], labels=lb)
     left, right = hist.build(ra), hist.build(rb)
+    # operands that went through copy.deepcopy / pickle (the minimisation pass itself hands build_miter a deep copy)
+    from .. import gen as _gen
+    left, right = _gen.clone(left, {2: 1, 5: 2}.get(src.get('ps', 0) % 7, 0)), _gen.clone(right, {1: 1, 3: 2, 5: 1}.get(src.get('ps', 0) % 7, 0))
     if src.get('permute_right_inputs') and right.input_size > 1:
         order = list(right.inputs)
         random.Random(src.get('ps', 0)).shuffle(order)
